@@ -45,6 +45,8 @@ def project(tree, full=True):
     names = {}
     for idx in idxs:
         payload = g[idx]
+        if payload is None or not hasattr(payload, "node_id"):
+            raise Inconsistent("graph slot %r holds no clone (payload %r)" % (idx, payload))
         name = payload.node_id
         if name in names.values():
             raise Inconsistent("duplicate node name %r" % (name,))
